@@ -68,6 +68,7 @@ def run_program(st, program, sink, with_index, name='out.tdms', after_session=No
                     rec['accepted'] = True
                 except Exception as exc:
                     rec['exc'] = '%s: %s' % (type(exc).__name__, exc)
+                    rec['must_accept'] = wgen.must_accept(call)
                 if sink == 'realpath':
                     # make buffered bytes visible to the size probe
                     for f in (writer._file, writer._index_file):
